@@ -693,7 +693,7 @@ def run_thread_case(case):
             return r, _real_time.time() - t0
 
         inp = ci.Input(in_stream=_Stream(slave), keynames=events.Keynames.BYTES, paste_threshold=case.get("pt", 8),
-                       sigint_event=(name == "sigint_during"))
+                       sigint_event=(name in ("sigint_during", "sigint_between")))
         with inp:
             cb = inp.threadsafe_event_trigger(TEv)
             if name in ("ts_during", "ts_during_none"):
@@ -708,7 +708,7 @@ def run_thread_case(case):
                 r2, dt2 = timed(inp, 0.3)
                 if r2 is not None:
                     return f"second request returned {r2!r}: duplicate"
-                if dt2 < 0.3:
+                if dt2 < 0.28:
                     return f"None after {dt2:.3f} s < time-out 0.3"
             elif name == "ts_before":
                 t = later(0.0, lambda: (cb(n=1), cb(n=2)))
@@ -720,7 +720,7 @@ def run_thread_case(case):
                 if dt > 1.0 or dt2 > 1.0:
                     return f"requests took {dt:.2f} s / {dt2:.2f} s although the events were queued"
                 r3, dt3 = timed(inp, 0.3)
-                if r3 is not None or dt3 < 0.3:
+                if r3 is not None or dt3 < 0.28:
                     return f"third request returned {r3!r} after {dt3:.3f} s (expected None no earlier than 0.3 s)"
             elif name == "ts_two_during":
                 later(0.3, lambda: cb(n=1))
@@ -756,6 +756,21 @@ def run_thread_case(case):
                 r2, _ = timed(inp, 0.2)
                 if r2 is not None:
                     return f"second request returned {r2!r}: duplicate SIGINT event"
+            elif name == "sigint_between":
+                # a SIGINT between two requests: the next request hands out the event; its wake-up byte is still in the pipe when the
+                # request after that starts waiting - with nothing deliverable it must wait its full time-out (real clock)
+                os.kill(os.getpid(), signal.SIGINT)
+                for _ in range(200):
+                    _nop()
+                r, dt = timed(inp, 0.5)
+                if not isinstance(r, events.SigIntEvent):
+                    return f"SIGINT between requests: the next request returned {r!r} after {dt:.2f} s"
+                for k, to in enumerate((0.4, 0.3)):
+                    r2, dt2 = timed(inp, to)
+                    if r2 is not None:
+                        return f"request #{k + 2} after the delivered SIGINT returned {r2!r}: duplicate"
+                    if dt2 < to - 0.02:         # (two clocks: 20 ms of tolerance)
+                        return f"request #{k + 2} after the delivered SIGINT returned None after {dt2:.4f} s < its time-out {to} s, nothing scheduled"
             else:
                 raise HarnessError(f"unknown scenario {name}")
         return ""
@@ -783,6 +798,7 @@ THREAD_CASES = [
     dict(suite="threads", scenario="bytes_during"),
     dict(suite="threads", scenario="ts_and_bytes_during", slow_factory=True),
     dict(suite="threads", scenario="sigint_during"),
+    dict(suite="threads", scenario="sigint_between"),
 ]
 
 
